@@ -235,6 +235,9 @@ func (e *Env) RunReplicas(mode string) {
 			{Name: "R3-crash-restart", ClockLag: -20 * time.Minute, ShuffleMap: true, Restarts: 0.08, MidBlock: true},
 		}
 		for _, sc := range scheds {
+			if e.OnlyReplica != "" && sc.Name != e.OnlyReplica {
+				continue
+			}
 			d, pi := e.ReplayOnReplica(sc)
 			if pi != nil {
 				e.Violate("C01", "C01.panic", sc.Name, pi.Call, fmt.Sprintf("replica %s panicked in %s where the observer did not: %s (%s)", sc.Name, pi.Call, pi.Value, pi.Stack))
@@ -248,6 +251,25 @@ func (e *Env) RunReplicas(mode string) {
 	case "c03":
 		a := ReplicaSched{Name: "A-never-stopped", ClockLag: 2 * time.Second, Calls: 0.3}
 		b := ReplicaSched{Name: "B-crash-restart", ClockLag: 2 * time.Second, Calls: 0.3, Restarts: 0.12, MidBlock: true}
+		if e.OnlyReplica != "" {
+			// shrinking: only the twin that diverged
+			for _, sc := range []ReplicaSched{a, b, {Name: "C-restart-only", ClockLag: 2 * time.Second, Restarts: 0.2, MidBlock: true}, {Name: "D-restart-after-every-block", ClockLag: 2 * time.Second, Restarts: 1.0}} {
+				if sc.Name != e.OnlyReplica {
+					continue
+				}
+				d, pi := e.ReplayOnReplica(sc)
+				sub := "C03.twin"
+				if sc.Name == a.Name {
+					sub = "C03.simulated"
+				}
+				if pi != nil {
+					e.Violate("C03", sub, sc.Name, pi.Call, fmt.Sprintf("twin %s panicked in %s: %s", sc.Name, pi.Call, pi.Value))
+				} else if d != nil {
+					report("C03", sub, sc, d)
+				}
+			}
+			return
+		}
 		da, pa := e.ReplayOnReplica(a)
 		if pa != nil {
 			e.Violate("C03", "C03.simulated", a.Name, pa.Call, fmt.Sprintf("twin A panicked in %s: %s", pa.Call, pa.Value))
@@ -267,6 +289,17 @@ func (e *Env) RunReplicas(mode string) {
 			e.Violate("C03", "C03.twin", c.Name, pc.Call, fmt.Sprintf("restarted twin C panicked in %s: %s", pc.Call, pc.Value))
 		} else if dc != nil {
 			report("C03", "C03.twin", c, dc)
+		}
+		if e.Thorough && len(e.Blocks) <= 400 {
+			// sweep: a restart after every committed height of the history
+			dsw := ReplicaSched{Name: "D-restart-after-every-block", ClockLag: 2 * time.Second, Restarts: 1.0}
+			dd, pd := e.ReplayOnReplica(dsw)
+			if pd != nil {
+				e.Violate("C03", "C03.twin", dsw.Name, pd.Call, fmt.Sprintf("restarted twin D panicked in %s: %s", pd.Call, pd.Value))
+			} else if dd != nil {
+				report("C03", "C03.twin", dsw, dd)
+			}
+			e.probe("restart_after_every_height_sweep")
 		}
 	}
 }
